@@ -102,7 +102,13 @@ def main(argv):
         d = make_scratch(mut['name'])
         outdir = d + '.out'
         try:
-            apply(mut, d)
+            try:
+                apply(mut, d)
+            except RuntimeError as e:       # the tree moved on (a repo fix changed the anchored lines): report, keep going
+                bad += 1
+                print('%-44s %s %-10s %s' % (mut['name'], mut['property'], 'STALE', str(e)[:160]))
+                sys.stdout.flush()
+                continue
             ok_tests, tail = run_tests(d) if tests else (True, '')
             rc, out, wall = run_check(mut['property'], tier, d, outdir)
             first = next((l for l in out.splitlines() if l.startswith('VIOLATION')), '')
